@@ -561,9 +561,9 @@ class err_isa(err_node):
         """
         """
         if seg_id == 'ISA':
-            return [err for err in self.errors if 'ISA' in err[0]]
+            return [err for err in self.errors if err[0] in ('025',)]
         elif seg_id == 'IEA':
-            return [err for err in self.errors if 'IEA' in err[0]]
+            return [err for err in self.errors if err[0] not in ('025',)]
         else:
             return []
         #err_list = []
